@@ -300,7 +300,8 @@ def explore(prop, tier, seed, only_policies=None, only_layers=None, budget_s=Non
     if not capped:
         for a in agg:
             a["complete"] = True
-    fails.sort(key=lambda f: (f["layer"], json.dumps(f["case"], default=str), f["clause"]))
+    lidx = {l.name: i for i, l in enumerate(layers)}
+    fails.sort(key=lambda f: (lidx.get(f["layer"], 99), len(json.dumps(f["case"], default=str)), json.dumps(f["case"], default=str), f["clause"]))
     return {"layers": agg, "outcomes": len(outcomes), "fails": fails, "samples": samples,
             "harness_errors": herr, "capped": capped, "wall_s": time.time() - t0,
             "order_sites": None}
